@@ -65,6 +65,38 @@ CHECKS["C20"] = dict(
          "Correspondence: decode-encode-decode cycle on the implementation for accepted inputs reached by mutation and by an independent non-canonical SD encoder.",
     design="6 (C20)", technique="Coq proof (parse soundness via pack/unpack inverses, bit-field lemmas) + differential correspondence with a non-canonical encoder", note=COMMON_NOTE)
 
+STACK_NOTE = COMMON_NOTE + " Loop-level: the asyncio event loop, tasks and timers are MODELLED (Model/Stack.v, hop rules calibrated against CPython 3.12 under the virtual-time loop), not verified; the model never runs late (virtual time). The end-to-end refinement model-run => abstract specification is NOT proved for this property; it is checked on every run by comparing complete traces (bytes and ticks) of the model and the real stack and by judging the implementation traces with the extracted Gallina checker."
+CHECKS["C05"] = dict(
+    text="Coq theorems about the abstract per-(listener,service,source) history specification that judges every trace (alternation for EVERY input history, reboot's stopped before the same message's offered, removal once, expiry on time) + TimedStore machine invariant (C09). The end-to-end refinement of the loop model to this specification is not proved; it is checked on every run: complete model-vs-implementation traces over timed histories incl. same-iteration coincidences, implementation traces judged by the extracted check_C05. Known finding F13 (duplicate registrations).",
+    design="6 (C05)", technique="Coq proof over the abstract history specification + executable loop model with exact trace correspondence on a virtual-time asyncio loop + extracted checker", note=STACK_NOTE)
+CHECKS["C06"] = dict(
+    text="Coq theorems about the abstract per-(instance,subscriber,subscription) history specification (alternation for every input history, rejected never recorded or reported, reboot before the same message's Subscribe, TTL restarted by refresh) and about handle_subscribe (listener consulted before recording, exactly one queue_send). End-to-end refinement not proved; checked on every run by exact trace correspondence and check_C06 (incl. positive-Ack-implies-recorded).",
+    design="6 (C06)", technique="Coq proof over the abstract history specification + function-level theorems + exact trace correspondence + extracted checker", note=STACK_NOTE)
+CHECKS["C09"] = dict(
+    text="Coq theorems: (A) the TimedStore algorithm as an abstract machine keeps 'live expiry timers <-> stored entries with a timer, one to one' for EVERY sequence of refresh/stop/remove-where/firing (no stale timer, infinite TTL owns none, removed entry has none); (B) the history specification expires exactly once exactly at t0+ttl, never earlier, is postponed/cancelled by a refresh, silent after removal. (C) refinement of the loop model not proved; checked on every run (both stores, deadlines +-1 tick, same-iteration coincidences both orders).",
+    design="6 (C09)", technique="Coq proof by invariant over all operation sequences (abstract TimedStore machine) + specification theorems + exact trace correspondence + extracted checker", note=STACK_NOTE)
+CHECKS["C15"] = dict(
+    text="Coq theorems for EVERY sequence of queue requests and collector firings (abstract machine mirroring queue_send/collector_timeout): per destination transmitted ++ pending = queued (no loss, duplication, reordering, mixing); case-by-case theorems of the model functions (zero timeout immediate, append, new collector with one timer at now+timeout, timeout sends exactly the collected entries). Deadline clause through the loop checked on every run (check_C15).",
+    design="6 (C15)", technique="Coq proof by invariant over all operation sequences (collector machine) + function-level theorems + exact trace correspondence + extracted checker", note=STACK_NOTE)
+CHECKS["C08"] = dict(
+    text="Coq theorems: for every interleaving of destinations the k-th id for a destination is ((k-1) mod 65535)+1 with the reboot flag iff k <= 65535 (alist invariant, lia over mod); never 0, no gap, no repeat; send_sd with no entries changes nothing, otherwise takes exactly one id which is the SOME/IP session id / SD reboot flag of the datagram. Correspondence walks a destination across the wrap through real send_sd (every datagram decoded) and _notify_single.",
+    design="6 (C08)", technique="Coq proof by induction over the send history with an alist invariant + differential correspondence across the wrap-around", note=STACK_NOTE)
+CHECKS["C10"] = dict(
+    text="Coq theorems on the offer task state machine of the model for every world (initial delay inside the window, first offer then readiness, repetition delays base*2^i, cyclic period or end, offer content, cancelled before first offer sends nothing, cancelled later exactly one StopOffer if cyclic, pending find answers dropped once stopped, announcer.stop idempotent). Composed schedule and global silence over all schedules not proved; judged on every run by check_C10 on implementation traces + exact trace correspondence. Known finding F11.",
+    design="6 (C10)", technique="Coq proof of the task state machine transitions + exact trace correspondence on a virtual-time loop + extracted checker", note=STACK_NOTE)
+CHECKS["C11"] = dict(
+    text="Coq theorems for every world: the Ack echoes ids/counter (bit-field lemma), no match => exactly one Nack to the sender, a running matching instance => exactly one queue_send of Ack (requested TTL) or Nack (rejected) after consulting the listener, other instances untouched, StopSubscribe handled by the store alone, multicast Subscribes change nothing. End-to-end over the loop checked on every run (check_C11).",
+    design="6 (C11)", technique="Coq proof by case analysis of the decision chain + bit-field lemmas + exact trace correspondence + extracted checker", note=STACK_NOTE)
+CHECKS["C12"] = dict(
+    text="Coq theorems for every world: who answers (ready and matching, iff), unicast => call_soon (no timer), multicast => one timer per instance at a delay inside the window, nobody else, answer content = configured offer to the requester, not-ready instances silent. End-to-end over the loop checked on every run (check_C12).",
+    design="6 (C12)", technique="Coq proof by unfolding/case analysis of handle_findservice + exact trace correspondence + extracted checker", note=STACK_NOTE)
+CHECKS["C13"] = dict(
+    text="Coq theorems for every world: round content = find entries of exactly the watched filters without a matching stored offer, wildcards and find TTL preserved, no further round after REPETITIONS_MAX, task ends as soon as nothing is unfound. Round schedule over the loop checked on every run (check_C13, liveness from the abstract TTL-store specification).",
+    design="6 (C13)", technique="Coq proof of the find task transitions + exact trace correspondence + extracted checker", note=STACK_NOTE)
+CHECKS["C14"] = dict(
+    text="Coq theorems for every world: Subscribe message/entry content (ids, TTL, counter 0, one endpoint option from the local sockname and protocol), subscribe-while-alive defers exactly one Subscribe, stop of an unknown request is a no-op. The mirror statement (ideal server) and refresh bound are judged on every run by check_C14 on implementation traces + exact trace correspondence; not proved.",
+    design="6 (C14)", technique="Coq function-level proofs + exact trace correspondence on a virtual-time loop + extracted checker (ideal-server fold)", note=STACK_NOTE)
+
 NOT_YET = {}
 
 
